@@ -156,6 +156,16 @@ func (i *InterfaceCollection) Append(ctx context.Context, iface *config.Interfac
 		log.Error().Str("expected-template", i.template).Str("interface-template", *iface.Config.Template).Msg(msg)
 		return errors.New(msg)
 	}
+	// The formatter of an output file is taken from the first mock added to
+	// it. Check the name on every mock so that an unknown formatter is never
+	// silently ignored when it is set on a mock that shares its file.
+	switch pkg.Formatter(*iface.Config.Formatter) {
+	case pkg.FormatGofmt, pkg.FormatGoImports, pkg.FormatNoop:
+	default:
+		msg := "unknown formatter type"
+		log.Error().Str("formatter", *iface.Config.Formatter).Msg(msg)
+		return fmt.Errorf("%s: %s", msg, *iface.Config.Formatter)
+	}
 	i.interfaces = append(i.interfaces, iface)
 	return nil
 }
